@@ -533,6 +533,13 @@ theorem C14_iter_nodup_complete (roots : List Nat) (ops : List (Nat × List Nat)
     · exact Or.inl hx
     · exact Or.inr ⟨op.2, ⟨op, hop, rfl⟩, hx⟩
 
+/-- the event owns its roots: along every history of `add_children` calls `roots` stays the list the event was
+constructed with, and level 0 returns exactly it (F24: the code keeps its own copy and hands out a copy) -/
+theorem C14_roots_fixed (roots : List Nat) (ops : List (Nat × List Nat)) (e : Ev) (h : build roots ops = some e) :
+    e.roots = roots ∧ fromLevel e 0 = some roots := by
+  have hr : e.roots = roots := (foldlM_all ops (init roots) e h).2
+  exact ⟨hr, by show some e.roots = some roots; rw [hr]⟩
+
 /-- level 0 is the list of roots; level `n+1` is the concatenation of the children of level `n` -/
 theorem C14_roots_level_zero (e : Ev) : fromLevel e 0 = some e.roots := rfl
 
